@@ -84,6 +84,7 @@ def dispatch (line : String) : String :=
     | "sendmsg" => C18.sendmsgOp args
     | "mailparam" => C04.mailparamOp args
     | "urlcred" => C04.urlcredOp args
+    | "urlauth" => C04.urlauthOp args
     | "ehlocmd" => C04.ehlocmdOp args
     | "mailstd" => C04.mailstdOp args
     | _ => "BADOP"
